@@ -13,7 +13,7 @@ for p, v in d.items():
         k = (s['fn'], s['kind'], s['desc'])
         if fn in s['fn'] and dsub in s['desc'] and k not in have:
             cnt = sum(1 for x in v['unproven'] if (x['fn'], x['kind'], x['desc']) == k)
-            a['entries'].append({'fn': s['fn'], 'kind': s['kind'], 'desc': s['desc'], 'count': cnt, 'class': cls, 'reason': reason})
+            a['entries'].append({'fn': s['fn'], 'kind': s['kind'], 'desc': s['desc'], 'cdesc': s.get('cdesc', s['desc']), 'count': cnt, 'class': cls, 'reason': reason})
             have.add(k); n += 1
 json.dump(a, open('/verif/rules/panic_audit.json', 'w'), indent=1)
 print('added', n)
